@@ -71,6 +71,15 @@ bool SignalEventImpl::enable()
     if (is_inited_) {
         for (int signo : sigset_) {
             if (!wp_loop_->subscribeSignal(signo, this)) {
+                //! 撤销本次已订阅的信号，否则本事件虽未使能却仍留在订阅表中：
+                //! disable() 与析构都不会再退订，信号处置无法恢复，析构后还会被回调
+                if (!is_enabled_) {
+                    for (int done_signo : sigset_) {
+                        if (done_signo == signo)
+                            break;
+                        wp_loop_->unsubscribeSignal(done_signo, this);
+                    }
+                }
                 return false;
             }
         }
